@@ -11,8 +11,43 @@ package ollamarunner
 //@ axiom forall s string, t string, n int :: shasprefix(s, t) && 0 <= n && n <= len(t) ==> shasprefix(s, t[0:n])
 
 //@ func flushPending
-//@   requires seq != nil
+//@   modifies seq.pendingResponses
 //@   loop 1 invariant shasprefix(old(sjoin(seq.pendingResponses, "")), joined)
 //@   loop 1 decreases len(joined)
 //@   assert-at send responses #1 : svalidutf8(sent) && len(sent) > 0 && shasprefix(old(sjoin(seq.pendingResponses, "")), sent)
 //@   ensures len(seq.pendingResponses) == 0
+
+// ---- processBatch: the per-token stop / withhold / flush decision -------------------------------
+// Only this decision is under contract (order-of-effects with recorded results); the model,
+// sampler and cache calls around it are unknown code (everything reachable is forgotten there).
+// Per generated piece: the piece is appended to the withheld pieces, `sequence` is their
+// concatenation; a contained stop (FindStop on the whole withheld text with the request's stops)
+// truncates with THAT stop and ends the sequence with reason stop; otherwise nothing is streamed
+// while the text ends in a proper prefix of a stop or in an incomplete character; only then the
+// withheld pieces are flushed. The finish reason says which of limit / end-of-sequence / stop /
+// closed connection ended generation.
+//@ extern func log/slog.Debug
+//@   modifies nothing
+//@ extern func log/slog.Warn
+//@   modifies nothing
+//@ func (*Server).processBatch
+//@   opt safe panic
+//@   ghost-at after call FindStop #1 : ghost_fs := ite(result.0, 1, 0)
+//@   ghost-at after call ContainsStopSuffix #1 : ghost_cs := ite(result, 1, 0)
+//@   ghost-at after call IncompleteUnicode #1 : ghost_iu := ite(result, 1, 0)
+//@   assert-at call FindStop #1 : arg0 == sjoin(seq.pendingResponses, "") && arg1 == seq.stop
+//@   assert-at call TruncateStop #1 : ghost_fs == 1 && arg0 == seq.pendingResponses && arg1 == stop
+//@   assert-at call ContainsStopSuffix #1 : ghost_fs == 0 && arg0 == sjoin(seq.pendingResponses, "") && arg1 == seq.stop
+//@   assert-at call IncompleteUnicode #1 : ghost_fs == 0 && ghost_cs == 0 && arg0 == sjoin(seq.pendingResponses, "")
+//@   assert-at call flushPending #1 : ghost_fs == 0 && ghost_cs == 0 && ghost_iu == 0 && arg0 == seq
+//@   assert-at call removeSequence #1 : arg2 == llm.DoneReasonLength && seq.numPredict > 0 && seq.numPredicted >= seq.numPredict
+//@   assert-at call removeSequence #3 : arg2 == llm.DoneReasonStop
+//@   assert-at call removeSequence #4 : arg2 == llm.DoneReasonStop && ghost_fs == 1
+//@   assert-at call removeSequence #5 : arg2 == llm.DoneReasonConnectionClosed && ghost_fs == 0 && ghost_cs == 0 && ghost_iu == 0
+
+// removeSequence: the final flush and the reason are in place before the stream is closed.
+//@ func (*Server).removeSequence
+//@   opt safe panic
+//@   ghost-at entry : ghost_flushed := 0
+//@   ghost-at after call flushPending #1 : ghost_flushed := 1
+//@   assert-at call close #1 : ghost_flushed == 1 && seq.doneReason == reason
